@@ -1,6 +1,283 @@
+//! C04 — unweighted sketches have set semantics (exact metamorphic monitor)
 use crate::common::*;
+use crate::gen::*;
+use crate::sk::*;
+use rand::Rng as _;
+use rand::RngCore;
+use rayon::prelude::*;
+use serde_json::{json, Value};
+use std::collections::HashSet;
+
+pub fn kinds() -> Vec<UKind> {
+    vec![
+        UKind::SmhF32,
+        UKind::SmhF64,
+        UKind::SmhF64NoHash,
+        UKind::Smh2U64,
+        UKind::Smh2U32,
+        UKind::SetU16(1.001, 20., 65534),
+        UKind::SetU32(1.001, 20., 65534),
+        UKind::SetU16(2.0, 20., 30),
+        UKind::SetU16(1.2, 5., 100),
+        UKind::SetU32(1.05, 30., 2000),
+        UKind::SetU16(1.0001, 20., 1_000_000), // registers clip at u16::MAX
+        UKind::OptF32,
+        UKind::OptF64,
+        UKind::RevF32,
+        UKind::RevF64,
+    ]
+}
+
+/// full sketch through one slice call (densified sketchers finish inside)
+fn by_slice(kind: UKind, m: usize, xs: &[u64]) -> Vec<u64> {
+    let mut s = make_usk(kind, m);
+    s.sketch_slice(xs);
+    s.bits()
+}
+
+fn by_items(kind: UKind, m: usize, xs: &[u64]) -> Vec<u64> {
+    let mut s = make_usk(kind, m);
+    for x in xs {
+        s.sketch(*x);
+    }
+    s.finish();
+    s.bits()
+}
+
+fn by_chunks(kind: UKind, m: usize, xs: &[u64], k: usize, rng: &mut Rng) -> Vec<u64> {
+    let mut s = make_usk(kind, m);
+    // random cut points
+    let mut cuts: Vec<usize> = (0..k.saturating_sub(1)).map(|_| rng.random_range(0..=xs.len())).collect();
+    cuts.push(0);
+    cuts.push(xs.len());
+    cuts.sort_unstable();
+    for w in cuts.windows(2) {
+        if w[1] > w[0] {
+            // mix slice calls and item-wise calls
+            if rng.random_range(0..3) == 0 {
+                for x in &xs[w[0]..w[1]] {
+                    s.sketch(*x);
+                }
+            } else {
+                s.sketch_slice(&xs[w[0]..w[1]]);
+            }
+        }
+    }
+    s.bits()
+}
+
+struct Out {
+    execs: u64,
+    groups: u64,
+    fail: Option<(String, String)>,
+    dig: u64,
+    n: usize,
+    case: Value,
+}
+
+fn one_stream(i: u64, seed: u64, tier: Tier) -> Out {
+    let mut rng = rng_from(mix(&[seed, i]));
+    let ks = kinds();
+    let kind = ks[(i % ks.len() as u64) as usize];
+    // distinct items
+    let nd = match rng.random_range(0..10) {
+        0 => 1,
+        1 => rng.random_range(2..5),
+        2..=5 => rng.random_range(5..200),
+        6..=8 => rng.random_range(200..3000),
+        _ => rng.random_range(3000..tier.pick(20_000, 100_000)),
+    };
+    let mut m = match rng.random_range(0..8) {
+        0 => 1,
+        1 => 2,
+        2 | 3 => rng.random_range(3..64),
+        4 | 5 => rng.random_range(64..1024),
+        6 => (nd * rng.random_range(2..=10)).clamp(1, 20_000),
+        _ => rng.random_range(1..=(nd.max(2))),
+    };
+    // keep the cost of a stream bounded (SuperMinHash is O(m) per item when m >> n)
+    while (m as u64) * (nd as u64) > 3_000_000 && m > 4 {
+        m /= 2;
+    }
+    if matches!(kind, UKind::RevF32 | UKind::RevF64) && m > 2000 {
+        m = 2000; // reverse densification reseeds a ChaCha generator per bin and pass
+    }
+    let ids = fresh_ids(&mut rng, nd, 0);
+    // stream with duplicates
+    let mut stream: Vec<u64> = ids.clone();
+    let ndup = match rng.random_range(0..3) {
+        0 => 0,
+        1 => nd / 2 + 1,
+        _ => nd.min(50) * 3,
+    };
+    for _ in 0..ndup {
+        stream.push(ids[rng.random_range(0..nd)]);
+    }
+    shuffle(&mut stream, &mut rng);
+    let case = json!({"kind": kind.name(), "m": m, "distinct_items": nd, "stream_len": stream.len(), "first_items": &stream[..stream.len().min(8)]});
+    let mut out = Out { execs: 0, groups: 0, fail: None, dig: mix(&[i, m as u64, nd as u64, digest_u64s(&ids[..nd.min(16)])]), n: nd, case };
+    let base = by_slice(kind, m, &stream);
+    out.execs += 1;
+    let mut check = |name: &str, bits: Vec<u64>, out: &mut Out| {
+        out.execs += 1;
+        out.groups += 1;
+        if out.fail.is_none() && bits != base {
+            let p = (0..base.len()).find(|&p| bits.get(p) != base.get(p)).unwrap_or(0);
+            out.fail = Some((format!("C04/{}", name), format!("{} m={} distinct={} : sketch differs from the one-slice sketch of the stream in entry {} of the bit image ({:#x} vs {:#x}) for variant '{}'", kind.name(), m, nd, p, bits.get(p).cloned().unwrap_or(0), base.get(p).cloned().unwrap_or(0), name)));
+        }
+    };
+    // item-wise
+    check("itemwise", by_items(kind, m, &stream), &mut out);
+    // reorderings (slice and item-wise alternate)
+    let mut sorted = stream.clone();
+    sorted.sort_unstable();
+    check("sorted", by_slice(kind, m, &sorted), &mut out);
+    let mut rev = stream.clone();
+    rev.reverse();
+    check("reversed", by_items(kind, m, &rev), &mut out);
+    let mut sh = stream.clone();
+    shuffle(&mut sh, &mut rng);
+    check("shuffled", by_slice(kind, m, &sh), &mut out);
+    // dedup
+    let mut dd = ids.clone();
+    shuffle(&mut dd, &mut rng);
+    check("deduplicated", by_slice(kind, m, &dd), &mut out);
+    // every item tripled (consecutive and spread)
+    let mut tr: Vec<u64> = Vec::with_capacity(3 * nd);
+    for x in &dd {
+        tr.push(*x);
+        tr.push(*x);
+    }
+    tr.extend_from_slice(&dd);
+    check("tripled", by_items(kind, m, &tr), &mut out);
+    // chunked over several calls (not for the densified sketchers, which are finished once)
+    if !kind.is_dens() {
+        let k = rng.random_range(2..=8);
+        check("chunked", by_chunks(kind, m, &stream, k, &mut rng), &mut out);
+        let k = rng.random_range(2..=8);
+        check("chunked", by_chunks(kind, m, &tr, k, &mut rng), &mut out);
+    }
+    // winners first / last: items whose hash is stored in the sketch (or, for value sketches of small sets, the per position
+    // argmin/argmax over single-item sketches)
+    let mut winners: HashSet<u64> = HashSet::new();
+    {
+        let mut s = make_usk(kind, m);
+        s.sketch_slice(&stream);
+        if let Some(hs) = s.stored_hashes() {
+            let hset: HashSet<u64> = hs.into_iter().collect();
+            // stored hashes must be hashes of streamed items
+            let allowed: HashSet<u64> = ids.iter().map(|&d| kind.item_hash(d)).collect();
+            out.groups += 1;
+            if out.fail.is_none() {
+                if let Some(bad) = hset.iter().find(|h| !allowed.contains(h)) {
+                    out.fail = Some(("C04/foreign-hash".into(), format!("{} m={} : a position holds {:#x} which is not the hash of any streamed item", kind.name(), m, bad)));
+                }
+            }
+            for d in &ids {
+                if hset.contains(&kind.item_hash(*d)) {
+                    winners.insert(*d);
+                }
+            }
+        } else if nd <= 40 && m <= 512 {
+            let is_set = matches!(kind, UKind::SetU16(..) | UKind::SetU32(..));
+            let singles: Vec<Vec<u64>> = ids.iter().map(|&d| by_slice(kind, m, &[d])).collect();
+            out.execs += nd as u64;
+            for p in 0..m {
+                let mut best = 0usize;
+                for (j, s) in singles.iter().enumerate() {
+                    let better = if is_set { s[p] > singles[best][p] } else { f64::from_bits(s[p]) < f64::from_bits(singles[best][p]) };
+                    if better {
+                        best = j;
+                    }
+                }
+                winners.insert(ids[best]);
+            }
+        }
+    }
+    if !winners.is_empty() && winners.len() < nd {
+        let (mut w, mut l): (Vec<u64>, Vec<u64>) = stream.iter().partition(|x| winners.contains(x));
+        shuffle(&mut w, &mut rng);
+        shuffle(&mut l, &mut rng);
+        let mut wl = l.clone();
+        wl.extend_from_slice(&w);
+        check("winners_last", by_items(kind, m, &wl), &mut out);
+        let mut wf = w.clone();
+        wf.extend_from_slice(&l);
+        check("winners_first", by_slice(kind, m, &wf), &mut out);
+    }
+    out
+}
+
+/// targeted workload for exact ties of the f32 densified sketchers: very many items per bin
+fn tie_stream(i: u64, seed: u64, n: usize) -> Out {
+    let mut rng = rng_from(mix(&[seed, i, 99]));
+    let kind = if i % 2 == 0 { UKind::OptF32 } else { UKind::RevF32 };
+    let m = [1usize, 1, 2][(i % 3) as usize];
+    let ids = fresh_ids(&mut rng, n, 0);
+    let base = by_slice(kind, m, &ids);
+    let mut rev = ids.clone();
+    rev.reverse();
+    let other = by_slice(kind, m, &rev);
+    let mut out = Out { execs: 2, groups: 1, fail: None, dig: mix(&[i, 99, digest_u64s(&ids[..16])]), n, case: json!({"kind": kind.name(), "m": m, "distinct_items": n, "note": "stream and its reverse; seed-derived ids", "stream_index": i}) };
+    if base != other {
+        let p = (0..base.len()).find(|&p| base[p] != other[p]).unwrap_or(0);
+        out.fail = Some(("C04/dens-f32-tie".into(), format!("{} m={} n={}: reversing the stream changes entry {} of the bit image ({:#x} vs {:#x}); float views equal: {}", kind.name(), m, n, p, base[p], other[p], base[..m] == other[..m])));
+    }
+    out
+}
 
 pub fn run(rep: &mut Report) {
-    let _ = rep;
-    eprintln!("C04 not implemented yet");
+    quiet_panics();
+    rep.rule = "per random stream (1..1e5 distinct items, duplicates, sketch size 1..10x the stream) and sketcher (SuperMinHash f32/f64/NoHash, SuperMinHash2 u64/u32, SetSketch u16/u32 with 6 parameter tuples, Opt/RevOpt densification f32/f64 with all three views): the one-slice sketch is compared bit for bit with item-wise, sorted, reversed, shuffled, deduplicated, tripled, chunked (2-8 calls mixing slice and item calls) and winners-first/last executions; stored hashes must be hashes of streamed items. Targeted leg: f32 densified sketchers with >= 1e5 items per bin, stream vs reversed stream (exact ties of the minimum). Distinct = digest of (kind, m, items); non-trivial when >= 2 distinct items".into();
+    let nstreams: u64 = rep.tier.pick(3000, 60_000);
+    let seed = subseed(rep.seed, "C04/streams", &[]);
+    let tier = rep.tier;
+    let only = rep.only_cell.clone();
+    let outs: Vec<(u64, Result<Out, String>)> = (0..nstreams)
+        .into_par_iter()
+        .filter(|i| only.as_ref().map(|c| c == &format!("stream{}", i) || c == "streams").unwrap_or(true))
+        .map(|i| (i, catch(move || one_stream(i, seed, tier))))
+        .collect();
+    for (i, o) in outs {
+        match o {
+            Ok(o) => {
+                rep.evaluations += o.execs;
+                rep.count("streams", 1);
+                rep.count("groups_compared", o.groups);
+                if o.n >= 2 {
+                    rep.distinct.insert(o.dig);
+                }
+                if i < 4 {
+                    rep.sample(o.case.clone());
+                }
+                if let Some((key, what)) = o.fail {
+                    rep.violation(&key, &format!("stream{}", i), what, o.case);
+                }
+            }
+            Err(p) => rep.violation("C04/panic", &format!("stream{}", i), format!("panic: {}", p), json!({"stream": i})),
+        }
+    }
+    // targeted f32 tie leg
+    let nties: u64 = rep.tier.pick(160, 3000);
+    let ntie_items = rep.tier.pick(400_000, 600_000);
+    let outs: Vec<(u64, Result<Out, String>)> = (0..nties)
+        .into_par_iter()
+        .filter(|i| only.as_ref().map(|c| c == &format!("tie{}", i) || c == "ties").unwrap_or(true))
+        .map(|i| (i, catch(move || tie_stream(i, seed, ntie_items))))
+        .collect();
+    for (i, o) in outs {
+        match o {
+            Ok(o) => {
+                rep.evaluations += o.execs;
+                rep.count("tie_streams", 1);
+                rep.distinct.insert(o.dig);
+                if let Some((key, what)) = o.fail {
+                    rep.violation(&key, &format!("tie{}", i), what, o.case);
+                }
+            }
+            Err(p) => rep.violation("C04/panic", &format!("tie{}", i), format!("panic: {}", p), json!({"tie_stream": i})),
+        }
+    }
+    collect_ticks(rep);
+    rep.assumptions.push("BuildHasherDefault::<H>::default().hash_one(item) is the reference hash of an item".into());
 }
